@@ -56,7 +56,8 @@ func expect(o gen.NestedOpt) expectation {
 		// a layout that is not validly signed by the functionary it is filed under is no evidence at all;
 		// the co-functionary's link serves the step and the layout is not followed
 		e.accept, e.noSubMarkers = true, true
-	case o.Delegate != "authorised" && o.CoThreshold == 1 && o.Defect == "" && o.ParentRules == "match":
+	case o.Delegate != "authorised" && o.CoThreshold == 1 && (o.Defect == "" || o.DefectLevel >= 2) && o.ParentRules == "match":
+		// (a defect inside the layout that is never followed changes nothing)
 		// the layout offered by the unauthorised functionary is not followed; the co-functionary's link serves the step
 		e.accept, e.noSubMarkers = true, true
 	case o.Delegate != "authorised":
